@@ -52,8 +52,11 @@ struct Model {
         mem[2 * w + 1] = (u8)(v >> 8);
     }
     bool in_window(u16 a) const { return a >= mmio_base && (u32)a < (u32)mmio_base + kWindow; }
-    // addresses that would be inside the window only if it wrapped around 0xFFFF: the statement is silent
-    bool wrap_zone(u16 a) const { return (u32)a + 0x10000 < (u32)mmio_base + kWindow; }
+    // Addresses that would be inside the window only if it wrapped around 0xFFFF (base > 0xF800) are OUTSIDE it: the
+    // statement defines the window as the 0x800 words "at its configured base", i.e. base <= a < base + 0x800, and a
+    // 16-bit address below the base does not satisfy that; such addresses are ordinary memory cells and are accessed
+    // and compared like any other (first version of this check skipped them; seed C11-a showed the gap).
+    bool wrap_zone(u16) const { return false; }
     u32 data_word(u16 a) const { return kDataWord0 + 0x10000u * z_page + a; }
     u16 reg_value(u16 off) const {
         if (off == REG_ZPAGE)
